@@ -225,6 +225,51 @@ Proof.
 Qed.
 Print Assumptions C02_source_tie.
 
+From Texel Require Import Index.MachineInt Index.ProofsGenLine.
+From Texel.Gen Require Import LineGen.
+
+(** ** tie G2 with machine integers: cmpProducts, paramBound.leavesRoomBelow and lineIntersects REGENERATED from
+    source on this run, with Go's int64 / uint64 semantics (wrap-around [-x] and [x - y], [uint64(x)] = x mod 2^64,
+    [bits.Mul64] = high and low word of the full product; Index/MachineInt.v), are the model's exact-Z definitions.
+    - cmpProducts: EVERY int64 a, c (also -2^63, whose negation wraps) and every positive int64 b, d;
+    - leavesRoomBelow: int64 numerators, positive int64 denominators ([pb_ok]);
+    - lineIntersects: all eight ordinates in [-2^62, 2^62), so that no subtraction of the source wraps
+      (C02_source_tie_lineIntersects_diff: it is enough that per axis to - from, min - from, max - from lie
+      strictly between -2^63 and 2^63). *)
+Theorem C02_source_tie_lineIntersects :
+  (forall a b c d, - 2^63 <= a < 2^63 -> 0 < b < 2^63 -> - 2^63 <= c < 2^63 -> 0 < d < 2^63 ->
+     gen_cmpProducts a b c d = match a * b ?= c * d with Lt => -1 | Eq => 0 | Gt => 1 end) /\
+  (forall lo up : pbound,
+     (- 2^63 <= bnum lo < 2^63 /\ 0 < bden lo < 2^63) -> (- 2^63 <= bnum up < 2^63 /\ 0 < bden up < 2^63) ->
+     gen_leavesRoomBelow (mk_gen_paramBound (bnum lo) (bden lo) (bstrict lo))
+                         (mk_gen_paramBound (bnum up) (bden up) (bstrict up)) = leavesRoomBelow lo up) /\
+  (forall (a b : pt) (e : extent),
+     - 2^62 <= fst a < 2^62 -> - 2^62 <= snd a < 2^62 -> - 2^62 <= fst b < 2^62 -> - 2^62 <= snd b < 2^62 ->
+     - 2^62 <= eminx e < 2^62 -> - 2^62 <= eminy e < 2^62 -> - 2^62 <= emaxx e < 2^62 -> - 2^62 <= emaxy e < 2^62 ->
+     gen_lineIntersects (a, b) (eminx e, eminy e, emaxx e, emaxy e) = lineIntersects a b e).
+Proof.
+  split; [exact gen_cmpProducts_spec |]. split; [exact gen_leavesRoomBelow_spec | exact gen_lineIntersects_spec].
+Qed.
+Print Assumptions C02_source_tie_lineIntersects.
+
+Theorem C02_source_tie_lineIntersects_diff : forall (a b : pt) (e : extent),
+  - 2^63 < fst b - fst a < 2^63 -> - 2^63 < eminx e - fst a < 2^63 -> - 2^63 < emaxx e - fst a < 2^63 ->
+  - 2^63 < snd b - snd a < 2^63 -> - 2^63 < eminy e - snd a < 2^63 -> - 2^63 < emaxy e - snd a < 2^63 ->
+  gen_lineIntersects (a, b) (eminx e, eminy e, emaxx e, emaxy e) = lineIntersects a b e.
+Proof. exact gen_lineIntersects_spec_diff. Qed.
+Print Assumptions C02_source_tie_lineIntersects_diff.
+
+(** the hypotheses are satisfiable at the int64 corner: a = c = -2^63 (both negations wrap), and the regenerated
+    code runs: (-2^63) * 3 < (-2^63) * 2; a segment through RD-sized coordinates *)
+Example C02_source_tie_lineIntersects_example :
+  gen_cmpProducts (- 2^63) 3 (- 2^63) 2 = -1 /\ gen_cmpProducts (- 2^63) (2^63 - 1) (- 2^63) (2^63 - 1) = 0 /\
+  gen_cmpProducts (2^63 - 1) (2^63 - 1) (2^63 - 1) (2^63 - 2) = 1 /\
+  gen_lineIntersects ((92500000000, 50000000000), (130000000000, 60000000001))
+                     (120000000000, 60000000000, 130000000000, 70000000000) = true /\
+  gen_lineIntersects ((92500000000, 50000000000), (130000000000, 60000000000))
+                     (120000000000, 60000000000, 130000000000, 70000000000) = false.
+Proof. vm_compute. repeat split; reflexivity. Qed.
+
 From Coq Require Import Permutation.
 From Texel Require Import Snap.Model Snap.ProofsBasics Snap.ProofsLevelThms Snap.ProofsNoCollapse.
 
